@@ -312,9 +312,12 @@ Definition outer_offsets_of (bo : list (list nat)) : list nat :=
   | o0 :: rest => fold_left (fun flat offs => map (getn offs) flat) rest o0
   end.
 
+(* buffer_inner_offsets: a single level of offsets is returned as it is
+   ("fix:" commit 0e152f8); two or more are chased from the first level *)
 Definition inner_offsets_of (bo : list (list nat)) : list nat :=
   match bo with
   | [] => []
+  | [o0] => o0
   | o0 :: rest =>
       let '(s, e) :=
         fold_left (fun '(s, e) offs => (getn offs s, getn offs e))
